@@ -110,7 +110,7 @@ class Prop(common.PropertyCheck):
         form = form or {}
         return {'subset': sorted(subset), 'ill': sorted(illformed), 'timech': timech, 'seed': rng.randrange(1 << 30),
                 'version': rng.choice(['FCS2.0', 'FCS3.0', 'FCS3.1']), 'creator': rng.choice(['CellQuest Pro 5.2', 'FlowJoCollectorsEdition 7.5', 'Other']),
-                'form': form}
+                'form': form, 'dt': rng.choice(['I', 'I', 'F']), 'D': rng.choice([3, 3, 3, 11, 12])}
 
     def gen_cases(self):
         rng = self.rng
@@ -125,10 +125,10 @@ class Prop(common.PropertyCheck):
     def spec_of(self, case):
         import random
         r = random.Random(case['seed'])
-        D = 3
-        names = ['FSC-H', 'FL1-H', 'FL2-H']
+        D = case.get('D', 3)
+        names = ['FSC-H', 'FL1-H', 'FL2-H'] + ['X%d-A' % k for k in range(4, D + 1)]
         if case['timech'] == 'two':
-            names = ['Time', 'FL1-H', 'TIME']
+            names = ['Time', 'FL1-H', 'TIME'] + names[3:]
         elif case['timech']:
             names[2] = case['timech']
         extra = []
@@ -154,10 +154,16 @@ class Prop(common.PropertyCheck):
                 extra.append(['BD$WORD%d' % (12 + i), val('BD$WORDn', 'V')])
             if 'CytekPnnG' in sub:
                 extra.append(['CytekP%02dG' % i, val('CytekPnnG', 'G')])
-        ev = [[5, 10, 100], [7, 20, 250], [9, 30, 400]]
-        return {'version': case['version'], 'delim': '|', 'datatype': 'I', 'byteord': '1,2,3,4', 'widths': [16] * D,
-                'ranges': [1024, 4096, 1000], 'events': ev, 'names': names,
-                'pne': {'1': '0,0', '2': '4,0', '3': '0,0' if case['timech'] else '3.5,1'}, 'extra': extra}
+        ev = [[5, 10, 100] + [3] * (D - 3), [7, 20, 250] + [4] * (D - 3), [9, 30, 400] + [5] * (D - 3)]
+        dt = case.get('dt', 'I')
+        if dt == 'F':
+            import struct
+            ev = [[struct.unpack('<I', struct.pack('<f', float(v)))[0] for v in row] for row in ev]
+        pne = {'1': '0,0', '2': '4,0', '3': '0,0' if case['timech'] else '3.5,1'}
+        for k in range(4, D + 1):
+            pne[str(k)] = ['0,0', '4.0,0.0', '5,1', '3,0'][k % 4]
+        return {'version': case['version'], 'delim': '|', 'datatype': dt, 'byteord': '1,2,3,4', 'widths': [16 if dt == 'I' else 32] * D,
+                'ranges': [1024, 4096, 1000] + [1024] * (D - 3), 'events': ev, 'names': names, 'pne': pne, 'extra': extra}
 
     def run_impl(self, case):
         spec = self.spec_of(case)
@@ -209,7 +215,7 @@ class Prop(common.PropertyCheck):
             want = None if rt is None else {'date': list(date) if date else None, 'time': list(rt)}
             if impl[attr] != want:
                 return '%s=%r $DATE=%r: %s time is %s, expected %s' % (key, t.get(key), t.get('$DATE'), attr, impl[attr], want)
-        D = 3
+        D = case.get('D', 3)
         cq = 'CellQuest Pro' in t.get('CREATOR', '')
         fj = 'FlowJoCollectorsEdition' in t.get('CREATOR', '')
         for i in range(1, D + 1):
@@ -259,7 +265,7 @@ class Prop(common.PropertyCheck):
         return None
 
     def model_request(self, case, impl):
-        return {'op': 'meta', 'text': impl['text'], 'npar': 3}
+        return {'op': 'meta', 'text': impl['text'], 'npar': case.get('D', 3)}
 
     def compare(self, case, impl, model):
         if 'driver_error' in model:
